@@ -438,9 +438,6 @@ fn mutate(r: &mut Rng, net: &mut Vec<Value>) -> String {
             format!("idx:{f}")
         }
         2 => {
-            // domain predicate: the lockout list of entry 0 is left alone (known finding F-C16-4 is
-            // represented by the TLC family and by known/netrules-dummy-lock-oob.json instead)
-            let p = if p == 0 { 1 } else { p };
             let a = r.range(1, n - 1);
             let v = *r.pick(&[0, a, n, n + 1, -1]);
             net[p]["lock"].as_array_mut().unwrap().push(json!(v));
